@@ -248,6 +248,7 @@ VALUE_POOL = [
     ["a", "b", "c"], {"a": ["b", "c"]}, {"a": {"type": "integer"}, "b": {"type": "integer"}},
     [{"type": "integer"}, {"type": "integer"}, {"type": "integer"}], {"type": "integer", "minimum": 5},
     [{}, {"type": "integer"}], [True, {"type": "integer"}], ["string", {"type": "integer", "minimum": 5}],
+    {"^a": {}, "(?i)^B": {}}, {"(?P<p>a)x": {}, "(?P<p>b)y": {}},
     [{"type": "string"}, "integer"], [{"minimum": 1}, "string", {"type": "null"}], [{"properties": {"a": {"minimum": 5}}}, "string", {"type": "array"}],
 ]
 
@@ -275,6 +276,22 @@ def search(job):
     from spec.pyops import PyOps
     d, k = job["draft"], job["keyword"]
     cls = classes(validators)[d]
+    if k in ("enum", "const") and job.get("mode") != "errors":
+        # the keyword's value is looked at afresh at every validation: a list edited in place, or a new list that
+        # happens to live where an old one did, is compared as what it now contains
+        pre = []
+        for first, second, x in (([1], [True], 1), ([True], [1], True), ([0.0], [False], 0), (["a"], [["a"]], "a")):
+            lst = list(first)
+            v = cls({"enum": lst})
+            r1 = v.is_valid(x)
+            lst[:] = second
+            r2 = v.is_valid(x)
+            r3 = cls({"enum": list(second)}).is_valid(x)
+            if not r1 or r2 or r3:
+                pre.append({"kind": "F", "mode": "verdict", "draft": d, "schema": {"enum": encode(second)}, "instance": encode(x),
+                            "expected": {"valid": False}, "observed": {"valid": bool(r2 or r3), "note": "after validating against enum %r with the same validator / list object" % (first,)}})
+        if pre:
+            return {"failures": pre[:job.get("limit", 3)], "tried": 4, "schemas": 4, "exhausted": False}
     meta = json.load(open(root + "/jsonschema/schemas/draft%d.json" % d))
     sibs = list(drafts.siblings(d, k)) + [e for e in job.get("extra_siblings", []) if e not in drafts.siblings(d, k) and e != k]
     limit = job.get("limit", 3)
@@ -431,7 +448,10 @@ def search_extras(job):
         if d == 3:
             consulted.add("required")      # read by properties from the property's subschema
         foreign = sorted((all_kw - consulted) - {"$ref", "id", "$id", "$schema", "format"})
-        extras = ["title", "description", "default", "examples", "$comment", "definitions", "x-made-up", "frobnicate", other_id] + foreign
+        later = ["$anchor", "$defs", "dependentRequired", "dependentSchemas", "unevaluatedProperties", "unevaluatedItems", "minContains", "maxContains",
+                 "prefixItems", "$recursiveRef", "$recursiveAnchor", "$dynamicRef", "$dynamicAnchor", "deprecated", "writeOnly", "contentSchema"]
+        extras = ["title", "description", "default", "examples", "$comment", "definitions", "x-made-up", "frobnicate", other_id] + foreign + \
+            [k for k in later if k not in consulted]
         bases = [({"type": "integer"}, [1, "a"]), ({"properties": {"a": {"type": "integer"}}}, [{"a": 1}, {"a": "x"}]),
                  ({"items": {"type": "integer"}}, [[1], ["x", 1]]), ({"type": "object", "additionalProperties": False, "properties": {"a": {}}}, [{"a": 1}, {"b": 1}])]
         if d != 3:
@@ -499,6 +519,17 @@ def search_extras(job):
                 report(d, base, dec, inst, a, b)
         if len(out) >= limit:
             return {"failures": out, "tried": tried}
+        # names of later specifications that look like identifiers do not become reference targets
+        for akey, aval in (("$anchor", "foo"), ("$dynamicAnchor", "foo"), (idk, "#foo")):
+            base = {"properties": {"a": {"$ref": "#foo"}}, "definitions": {"x": {"type": "integer"}}}
+            dec = {"properties": {"a": {"$ref": "#foo"}}, "definitions": {"x": {"type": "integer", akey: aval}}}
+            if akey == idk:
+                continue      # an id of the draft's own spelling is not an inserted unknown keyword
+            for inst in ({"a": 1}, {"a": "s"}):
+                tried += 1
+                a, b = errs(cls, base, inst), errs(cls, dec, inst)
+                if a != b:
+                    report(d, base, dec, inst, a, b)
         # identifier-looking objects inside annotations / unknown keywords do not become reference targets
         url = "demo://nowhere.invalid/thing.json"
         for k in ("default", "examples", "x-made-up", "definitions-not", "enum"):
